@@ -110,13 +110,15 @@ func (mp MultiPolygon) Len() int {
 func (mp MultiPolygon) Points() func() Point {
 	var i, j, k int
 	return func() Point {
-		if i == len(mp[k][j]) {
-			j++
-			i = 0
+		// skip empty polygons and empty rings
+		for j == len(mp[k]) || i == len(mp[k][j]) {
 			if j == len(mp[k]) {
 				k++
 				j = 0
+			} else {
+				j++
 			}
+			i = 0
 		}
 		i++
 		return mp[k][j][i-1]
